@@ -261,6 +261,7 @@ def check_range(inst, V, ctx, body, spath, kind, roles):
         # ---- table mode: alternatives of the inner iterator
         ialts = inner[2] if inner[0] == 'phi' else ((site, inner),)
         seen_empty = seen_slice = False
+        flat = []
         for asite, at in ialts:
             srcx = V.iter_source(at)
             if srcx and srcx[0] == 'copied' and srcx[1][0] == 'subslice2' and srcx[1][1][0] == 'T3' and len(ialts) == 1:
@@ -276,15 +277,24 @@ def check_range(inst, V, ctx, body, spath, kind, roles):
                         return True
             if not srcx or srcx[0] != 'copied' or srcx[1][0] != 'subslice' or srcx[1][1][0] != 'T3':
                 _bad(ctx, inst, 'constructor', 'range() iterates %s, required a sub-slice of the variant table' % show(at), 'unrecognised'); return False
-            rng = V.strip(srcx[1][2])
+            rng0 = V.strip(srcx[1][2])
+            # `TABLE[if start_idx > end_idx { 0..0 } else { start_idx..end_idx + 1 }]`: one index expression with two definitions
+            flat += [(rs, V.strip(rt)) for rs, rt in rng0[2]] if rng0[0] == 'phi' else [(asite, rng0)]
+        for asite, rng in flat:
             gs = [g for g in body.dominating_guards(asite[0])]
-            if rng[0] == 'agg' and rng[1].endswith('RangeTo|RangeTo') and rng[2] == (('int', 'usize', 0),):
+            zero = ('int', 'usize', 0)
+            if rng[0] == 'agg' and ((rng[1].endswith('RangeTo|RangeTo') and rng[2] == (zero,)) or (rng[1].endswith('Range|Range') and rng[2] == (zero, zero))):
                 # the empty prefix: never panics
                 seen_empty = True
                 empt = (asite, gs)
                 continue
-            if rng[0] == 'call' and rng[1] == S.R_NEW:
-                s, e = rng[2]
+            half_open = None
+            if rng[0] == 'agg' and rng[1].endswith('Range|Range') and len(rng[2]) == 2:
+                x = V.strip(rng[2][1])
+                if x[0] == 'bin' and x[1] in ('Add', 'Add_checked') and x[3] == ('int', 'usize', 1):
+                    half_open = (rng[2][0], x[2])        # start_idx .. end_idx + 1  ==  start_idx ..= end_idx  (end_idx + 1 <= N)
+            if (rng[0] == 'call' and rng[1] == S.R_NEW) or half_open:
+                s, e = half_open if half_open else rng[2]
                 if not (index_arg(V, body, s) == 0 and index_arg(V, body, e) == 1):
                     _bad(ctx, inst, 'constructor', 'TABLE[%s ..= %s] does not run from the start index to the end index' % (show(s), show(e)), cls='/bounds'); return False
                 if not (check_index(inst, V, ctx, body, s, 0) and check_index(inst, V, ctx, body, e, 1)):
@@ -337,14 +347,26 @@ def check_range(inst, V, ctx, body, spath, kind, roles):
             return x[2][0], 'wrapping'
         return None, None
     d, addk = strip_add1(ot)
-    if d is None:
-        _bad(ctx, inst, 'constructor', 'non-empty len is %s, required end_idx - start_idx + 1' % show(ot), cls='/len'); return False
-    if d[0] == 'bin' and d[1] in ('Sub', 'Sub_checked'):
-        e, s = d[2], d[3]
-    elif d[0] == 'call' and d[1] == 'int::wrapping_sub':
-        e, s = d[2]
-    else:
-        _bad(ctx, inst, 'constructor', 'non-empty len is %s, required end_idx - start_idx + 1' % show(ot), cls='/len'); return False
+    e = s = None
+    if d is not None:
+        if d[0] == 'bin' and d[1] in ('Sub', 'Sub_checked'):
+            e, s = d[2], d[3]
+        elif d[0] == 'call' and d[1] == 'int::wrapping_sub':
+            e, s = d[2]
+    if e is None:
+        # (end_idx + 1) - start_idx: the same number under the dominating `start_idx <= end_idx` (no underflow), and end_idx + 1 <= N
+        x = ot
+        if x[0] == 'bin' and x[1] in ('Sub', 'Sub_checked'):
+            y, _k = strip_add1(V.strip(x[2]))
+            if y is not None:
+                e, s = y, x[3]
+        elif x[0] == 'call' and x[1] == 'int::wrapping_sub':
+            y, _k = strip_add1(V.strip(x[2][0]))
+            if y is not None:
+                e, s = y, x[2][1]
+    if e is None:
+        # a form the rule cannot read is not evidence of a wrong length
+        _bad(ctx, inst, 'constructor', 'non-empty len is %s, required end_idx - start_idx + 1' % show(ot), 'unrecognised', cls='/len'); return False
     if not (index_arg(V, body, s) == 0 and index_arg(V, body, e) == 1):
         _bad(ctx, inst, 'constructor', 'len = %s does not subtract the start index from the end index' % show(ot), cls='/len'); return False
     if not (check_index(inst, V, ctx, body, s, 0) and check_index(inst, V, ctx, body, e, 1)):
